@@ -174,6 +174,26 @@ impl Monitor for C04 {
 
     fn run_case(&self, _index: u64, seed: u64, tier: Tier, rep: &mut CaseReport) {
         let mut rng = Rng::new(seed);
+        if _index % 16 == 15 {
+            // small-scope exhaustive: every execution of a tiny executor (timer and polling-point analyses)
+            let (ex, tiny) = gen_tiny_executor(&mut rng);
+            rep.sample = Some(jobj! {"exhaustive_small_scope" => true, "executor" => ex.to_json()});
+            let probs = problems(&ex, 300);
+            let mut bounds: Vec<Option<u64>> = vec![None; ex.cbs.len()];
+            let mut names = vec![""; ex.cbs.len()];
+            for (p, m, _) in &probs {
+                if let (Measured::Callback(cb), Ok(Outcome::Ok(r))) = (m, run_lib(p)) {
+                    bounds[*cb] = Some(r);
+                    names[*cb] = p.name();
+                }
+            }
+            // timers and polled callbacks have different analyses: report per analysis
+            for which in ["ros2::rta_timer", "ros2::rta_polling_point_callback"] {
+                let b: Vec<Option<u64>> = (0..ex.cbs.len()).map(|i| if names[i] == which { bounds[i] } else { None }).collect();
+                exhaustive_compare("C04", which, &ex, &tiny, &b, rep);
+            }
+            return;
+        }
         let ex = gen_executor(&mut rng, false);
         let limit = *rng.pick(&[300u64, 1000, 1000]);
         rep.sample = Some(ex.to_json());
@@ -365,5 +385,72 @@ fn event_source_case(rng: &mut Rng, tier: Tier, rep: &mut CaseReport) {
     rep.count("event_source_bounds_checked", 1);
     if worst == r {
         rep.count("event_source_bound_attained", 1);
+    }
+}
+
+
+// ------------------------------------------------------------------------------------------------
+// Small-scope exhaustive part: ALL executions of a tiny executor of independent sporadic callbacks.
+
+use crate::sim::exhaustive_ros::{explore, TinyCb};
+
+pub fn gen_tiny_executor(rng: &mut Rng) -> (Executor, Vec<TinyCb>) {
+    let n = rng.usize(1, 3);
+    let sup = match rng.range(0, 3) {
+        0 => Sup::Dedicated,
+        1 => {
+            let p = rng.range(2, 4);
+            Sup::Periodic { q: rng.range(1, p), p }
+        }
+        _ => {
+            let p = rng.range(2, 4);
+            let d = rng.range(1, p);
+            Sup::Constrained { q: rng.range(1, d), d, p }
+        }
+    };
+    let mut prios: Vec<u32> = (0..n as u32).collect();
+    rng.shuffle(&mut prios);
+    let mut cbs = vec![];
+    let mut chains = vec![];
+    let mut tiny = vec![];
+    for k in 0..n {
+        let t = rng.range(3, 9);
+        let wcet = rng.range(1, 2);
+        let timer = rng.chance(1, 3);
+        cbs.push(Cb { wcet, timer, prio: prios[k] });
+        chains.push(Chain { source: Arr::Sporadic { t, j: 0 }, cbs: vec![k] });
+        tiny.push(TinyCb { t, wcet, timer, prio: prios[k] });
+    }
+    (Executor { cbs, chains, sup }, tiny)
+}
+
+/// Compare per-callback bounds with the maximum response time over ALL executions.
+pub fn exhaustive_compare(id: &str, what: &str, ex: &Executor, tiny: &[TinyCb], bounds: &[Option<u64>], rep: &mut CaseReport) {
+    if bounds.iter().all(|b| b.is_none()) {
+        return;
+    }
+    let maxr = bounds.iter().flatten().copied().max().unwrap();
+    let cap = (maxr + 4).min(80);
+    let e = explore(tiny, ex.sup, cap, 80_000);
+    rep.count("exhaustive_explorations", 1);
+    rep.count("exhaustive_states", e.states);
+    rep.count("exhaustive_transitions", e.transitions);
+    if e.complete {
+        rep.count("exhaustive_explorations_complete", 1);
+    }
+    for (i, b) in bounds.iter().enumerate() {
+        let Some(r) = b else { continue };
+        if e.worst[i] > *r {
+            rep.violation(
+                format!("{} analysis={} kind=instance-exceeds-bound (exhaustive small-scope exploration)", id, what),
+                jobj! {"executor" => ex.to_json(), "callback" => i, "bound" => *r, "worst_response_time_over_all_executions" => e.worst[i],
+                "states" => e.states, "complete" => e.complete},
+            );
+        } else if e.complete && !e.exceeded_cap {
+            rep.count("bounds_compared_with_maximum_over_all_executions", 1);
+            if e.worst[i] == *r {
+                rep.count("bounds_equal_to_maximum_over_all_executions", 1);
+            }
+        }
     }
 }
